@@ -7,7 +7,7 @@ import tx
 from impl import trees, transform, quiet, clone, tag_uids, mk_leaf, mk_node
 
 ID = "C11"
-MODULE = ['TT.Props.C11', 'TT.Props.C11More', 'TT.Props.C11Slash', 'TT.Props.Pinned', 'TT.Props.C11Traces', 'TT.Props.C11Slash2', 'TT.Props.C11Slash3']
+MODULE = ['TT.Props.C11', 'TT.Props.C11More', 'TT.Props.C11Slash', 'TT.Props.Pinned', 'TT.Props.C11Traces', 'TT.Props.C11Slash2', 'TT.Props.C11Slash3', 'TT.Props.C11Slash4', 'TT.Props.C11Slash5']
 RULE = ("random well-formed trees with punctuation / trace tokens at any depth and position (first, last, only child "
         "of a unary chain, sole content of a constituent); terminal files with valid, out-of-range, 0 and other-sentence "
         "entries; parameters quiet, keep, keepall, keepcoindex, slash (flag and label list; co-indexed fillers that dominate "
